@@ -53,7 +53,8 @@ def check(ctx):
         ctx.ob("C12.S1", f"{cls.name}/same-path", spath, loc(rd, ro), "read and write use self.path" if spath else "read and write use different paths")
         if not rb:
             re_, we_ = arg(ro, None, "encoding"), arg(wc, None, "encoding")
-            same = (norm(re_) if re_ is not None else None) == (norm(we_) if we_ is not None else None)
+            from ..astq import expand_locals
+            same = (norm(expand_locals(rd, re_)) if re_ is not None else None) == (norm(expand_locals(wr, we_)) if we_ is not None else None)
             ctx.ob("C12.S1", f"{cls.name}/encoding", same, loc(rd, ro),
                    f"same encoding expression on both sides ({norm(re_) if re_ is not None else 'default'})" if same else
                    f"encoding differs: read {norm(re_) if re_ is not None else 'locale default'}, write {norm(we_) if we_ is not None else 'locale default'}",
